@@ -71,6 +71,8 @@ pub struct E1<'c> {
     /// salsa keys of function memos whose last execution asked for q_spec(..) (C10 diagnosis)
     pub spec_readers: std::collections::BTreeSet<(u32, u64)>,
     pub spec_reader_defect_seen: bool,
+    /// cyclic programs: reference values of every world in which a request was made (oldest first)
+    pub past_vals: Vec<Vec<u32>>,
 }
 
 pub fn expected_obs(ev: &mut Eval, prog: &Program, n: usize, arg: u32, deep: bool) -> Result<Obs, Abort> {
@@ -148,7 +150,7 @@ impl<'c> E1<'c> {
         fault::MASK.store(case.fault_mask, SeqCst);
         let db = SimDatabase::new(&case.prog, &world);
         let oracles = crate::oracles::for_case(case);
-        E1 { case, db: Some(db), world, out: RunOut::default(), step: 0, never: Default::default(), oracles, queries: 0, cycle_panicked_in_rev: false, fb_defect_seen: false, injected_now: false, poisoned_now: false, injected_in_rev: false, last_fault_cb: None, stop_run: false, restored_ts_stale: false, held: vec![], spec_readers: Default::default(), spec_reader_defect_seen: false }
+        E1 { case, db: Some(db), world, out: RunOut::default(), step: 0, never: Default::default(), oracles, queries: 0, cycle_panicked_in_rev: false, fb_defect_seen: false, injected_now: false, poisoned_now: false, injected_in_rev: false, last_fault_cb: None, stop_run: false, restored_ts_stale: false, held: vec![], spec_readers: Default::default(), spec_reader_defect_seen: false, past_vals: vec![] }
     }
 
     fn db(&self) -> &SimDatabase {
@@ -274,6 +276,9 @@ impl<'c> E1<'c> {
             if bad_mode {
                 self.out.bump("bad_mode_requests");
             }
+            if self.past_vals.last() != Some(&cr.vals) {
+                self.past_vals.push(cr.vals.clone());
+            }
             cr_opt = Some(cr);
         } else {
             let mut ev = Eval::new(prog, &self.world);
@@ -380,6 +385,29 @@ impl<'c> E1<'c> {
                             self.drain(&info);
                             return;
                         }
+                        // recorded finding #12 (C12): a fixpoint member that was finalized with an
+                        // incomplete dependency list (dependencies reached through a back edge to a
+                        // cycle head propagate one hop per iteration, iteration stops when the values
+                        // converge) and a missing dependency has been written since
+                        if let Some(cr) = cr_opt.as_ref() {
+                            if self.out.revisions > 0 && !prog.nodes.iter().any(|x| x.kind == Kind::Fb) {
+                                let infos: Vec<MemoInfo> = (prog.blk_lo as usize..prog.blk_hi as usize).filter_map(|x| memo_info(self.db(), x)).collect();
+                                let mut written = std::collections::BTreeSet::new();
+                                for s in &self.case.hist[..self.step.min(self.case.hist.len())] {
+                                    if let Step::SetIn { i, f, .. } = s {
+                                        written.insert((*i as usize, *f as usize));
+                                    }
+                                }
+                                let bad = crate::refcyc::incomplete_participants(cr, &infos, &written);
+                                if !bad.is_empty() {
+                                    self.out.viol("cycle_participant_incomplete_deps", step, format!("node {n}: expected {e:?} got {g:?}; finalized members with unrecorded, written dependencies: {bad:?}"));
+                                    self.stop_run = true;
+                                    info.ok = true;
+                                    self.drain(&info);
+                                    return;
+                                }
+                            }
+                        }
                         // recorded finding (C04): an untracked read performed by a member of a fixpoint
                         // cycle is lost when the head's dependencies are flattened
                         let cyc_untracked = cr_opt.as_ref().is_some_and(|cr| {
@@ -398,9 +426,17 @@ impl<'c> E1<'c> {
                         // values stay memoized, so later requests of the same run can show them too.
                         let mechanism = self.case.hist[..self.step.min(self.case.hist.len())].iter().any(|s| s.is_mut());
                         let known_shape = fb && mechanism && cr_opt.as_ref().is_some_and(|cr| cr.fb_body_value_model_matches(n, g.v));
+                        // recorded finding #13 (C13): a dependent of a cycle_result member keeps the value
+                        // it computed from the member's fallback after a write removed the cycle (the
+                        // member's re-execution is backdated): the stale value is the node's reference
+                        // value in an earlier world of this run
+                        let stale_shape = fb && mechanism && self.past_vals.len() >= 2 && self.past_vals[..self.past_vals.len() - 1].iter().any(|v| v[n] == g.v);
                         if known_shape {
                             self.fb_defect_seen = true;
                             self.out.viol("fb_member_returned_body_value", step, format!("node {n}: expected {e:?} got {g:?} (= body value of a fallback-cycle member re-executed in a later revision)"));
+                        } else if stale_shape {
+                            self.out.viol("fb_dependent_validated_stale", step, format!("node {n}: expected {e:?} got {g:?} (= its value in an earlier revision; fallback cycle reshaped by a write)"));
+                            self.stop_run = true;
                         } else {
                             self.out.viol("value_mismatch", step, format!("node {n} arg {arg}: expected {e:?} got {g:?}"));
                         }
